@@ -37,6 +37,13 @@ let of_spec (spec : string) : ip4 =
       i4_src = bytes_of_hex src; i4_dst = bytes_of_hex dst; i4_opts = os; i4_padding = bytes_of_hex pad }
   | _ -> failwith "ip4 spec"
 
+let lcg n seed =
+  let x = ref (seed land 0xFFFFFFFF) in
+  let rec go k acc = if k = 0 then Stdlib.List.rev acc else begin
+    x := (!x * 1103515245 + 12345) land 0xFFFFFFFF;
+    go (k - 1) (z_of_int ((!x lsr 16) land 255) :: acc) end in
+  go n []
+
 let run (id : string) (ops : string list) (out : out_channel) =
   let step = ref 0 in
   let emit s = Printf.fprintf out "%s\t%d\t%s\n" id !step s; incr step in
@@ -55,13 +62,20 @@ let run (id : string) (ops : string list) (out : out_channel) =
       let (o, l1) = ip4_serialize l0 (bytes_of_hex p) (fcd.[0] = '1') (fcd.[1] = '1') (junk_of d) in
       let outb = match o with Base.Ok b -> hex_of_bytes b | _ -> "" in
       emit (Printf.sprintf "cls=%s;out=%s;%s" (cls_of o) outb (fields l1))
-    | "rt", [h; p] ->
+    | ("rt" | "bigrt"), (h :: rest) ->
+      let payload = (match name, rest with
+        | "rt", [p] -> bytes_of_hex p
+        | _, [n; seed] -> lcg (int_of_string n) (int_of_string seed)
+        | _ -> failwith "rt args") in
       let ((l, o), _) = ip4_decode_into ip4_fresh (bytes_of_hex h) in
       (match o with
        | Base.Ok _ ->
-         let (so, _) = ip4_serialize l (bytes_of_hex p) true true (junk_of 0) in
+         let (so, _) = ip4_serialize l payload true true (junk_of 0) in
          (match so with
-          | Base.Ok b -> let ((l2, o2), tr2) = ip4_decode_into ip4_fresh b in emit (obs (cls_of o2) tr2 l2)
+          | Base.Ok b -> let ((l2, o2), tr2) = ip4_decode_into ip4_fresh b in
+            if name = "rt" then emit (obs (cls_of o2) tr2 l2)
+            else emit (Printf.sprintf "cls=%s;tr=%s;%s;clen=%d;plen=%d" (cls_of o2) (if tr2 then "1" else "0") (fields l2)
+                         (Stdlib.List.length l2.i4_contents) (Stdlib.List.length l2.i4_payload))
           | _ -> emit ("ser=" ^ cls_of so))
        | _ -> emit ("first=" ^ cls_of o))
     | _ -> failwith ("lip4 op: " ^ op)) ops
